@@ -81,6 +81,7 @@ type Contract struct {
 	OnlyProps []string // the contract stands in for the function only when one of these properties is checked
 	Opaque   []string // callee patterns treated as opaque pure calls while verifying this function
 	SafetyProps []string // when set: safety obligations only for these properties
+	Recovers bool
 	TrustFrame bool
 	Closed   bool // every call site in the module must be in verified code (preconditions are not input assumptions)
 	Sweep    bool // synthesised by a sweep directive: callers keep inlining the function
@@ -566,6 +567,10 @@ func (cs *ContractSet) LoadFile(file string) error {
 						cur.Opaque = append(cur.Opaque, pat)
 					}
 				}
+			case "recovers":
+				// the function installs a deferred recover() before it does
+				// anything else: no panic of its body or callees leaves it
+				cur.Recovers = true
 			case "trustframe":
 				// the assigns clause is used at call sites but not checked here
 				cur.TrustFrame = true
